@@ -165,4 +165,112 @@ theorem rawLoad_no_symend (off : Nat) (text : List Char) :
   | nil => intro st h; exact h
   | cons l r ih => intro st h; exact ih _ (loadLine_no_symend off st l h)
 
+/-! ### reading back what `save_module_symbol_file` wrote -/
+
+theorem hexVal_hexDigit : ∀ d, d < 16 → hexVal (hexDigit d) = some d := by decide
+
+theorem hexDigit_facts : ∀ d, d < 16 →
+    isSpaceC (hexDigit d) = false ∧ hexDigit d ≠ '-' ∧ hexDigit d ≠ '+' ∧ hexDigit d ≠ 'x' ∧
+    hexDigit d ≠ 'X' ∧ hexDigit d ≠ '#' ∧ hexDigit d ≠ '\n' ∧ hexDigit d ≠ ' ' := by decide
+
+theorem hexDigit_isDigit : ∀ d, d < 10 → (hexDigit d).isDigit = true := by decide
+
+theorem hexVal_space : hexVal ' ' = none := by decide
+
+/-- parsing what `%0<w>x` printed, followed by a blank -/
+theorem hexDigits_hexFixed (w n acc : Nat) (rest : List Char) :
+    hexDigits (hexFixed w n ++ ' ' :: rest) acc = (acc * 16 ^ w + n % 16 ^ w, ' ' :: rest) := by
+  induction w generalizing acc with
+  | zero => simp [hexFixed, hexDigits, hexVal_space, Nat.mod_one]
+  | succ w ih =>
+    simp only [hexFixed, List.cons_append, hexDigits]
+    rw [hexVal_hexDigit _ (Nat.mod_lt _ (by decide))]
+    simp only
+    rw [ih]
+    congr 1
+    rw [Nat.mod_pow_succ (b := 16) (k := w) (x := n), Nat.pow_succ]
+    rw [Nat.add_mul, Nat.mul_assoc, Nat.mul_comm 16 (16 ^ w), Nat.mul_comm (n / 16 ^ w % 16) (16 ^ w)]
+    omega
+
+theorem stripSign_other (c : Char) (tl : List Char) (m0 : c ≠ '-') (p0 : c ≠ '+') :
+    stripSign (c :: tl) = (false, c :: tl) := by
+  unfold stripSign
+  split
+  · rename_i h; simp at h; exact absurd h.1 m0
+  · rename_i h; simp at h; exact absurd h.1 p0
+  · rfl
+
+theorem strip0x_other (c0 c1 : Char) (tl : List Char) (x1 : c1 ≠ 'x') (X1 : c1 ≠ 'X') :
+    strip0x (c0 :: c1 :: tl) = c0 :: c1 :: tl := by
+  unfold strip0x
+  split
+  · rename_i x h r heq
+    simp only [List.cons.injEq] at heq
+    obtain ⟨_, hx, _⟩ := heq
+    subst hx
+    simp [x1, X1]
+  · rfl
+
+/-- `strtoull` on what `%0<w>x` printed (at least 2 digits, value in range), followed by a blank -/
+theorem strtoHex_hexFixed (w n : Nat) (rest : List Char) (hn : n < 16 ^ (w + 2))
+    (h64 : 16 ^ (w + 2) ≤ U64) :
+    strtoHex (hexFixed (w + 2) n ++ ' ' :: rest) = (n, ' ' :: rest) := by
+  have key := hexDigits_hexFixed (w + 2) n 0 rest
+  have f0 := hexDigit_facts (n / 16 ^ (w + 1) % 16) (Nat.mod_lt _ (by decide))
+  have f1 := hexDigit_facts (n / 16 ^ w % 16) (Nat.mod_lt _ (by decide))
+  have v0 := hexVal_hexDigit (n / 16 ^ (w + 1) % 16) (Nat.mod_lt _ (by decide))
+  simp only [hexFixed, List.cons_append] at key ⊢
+  unfold strtoHex
+  rw [List.dropWhile_cons_of_neg (by simp [f0.1])]
+  rw [stripSign_other _ _ f0.2.1 f0.2.2.1]
+  simp only
+  rw [strip0x_other _ _ _ f1.2.2.2.1 f1.2.2.2.2.1]
+  simp only [v0, Option.isSome_some, if_true, key]
+  rw [Nat.mod_eq_of_lt hn]
+  simp
+  omega
+
+theorem parseFields_saved (A S : Nat) (ty : Char) (name : List Char) (hA : A < U64)
+    (hS : S < 0xa0000000) :
+    parseFields (hexFixed 16 A ++ ' ' :: (hexFixed 8 S ++ ' ' :: ty :: ' ' :: name))
+      = some (A, S % U32, ty, cutTab name) := by
+  have hd : S / 16 ^ 7 % 16 < 10 := by omega
+  have step1 := strtoHex_hexFixed 14 A (hexFixed 8 S ++ ' ' :: ty :: ' ' :: name)
+    (by unfold U64 at hA; omega) (by unfold U64; decide)
+  have step2 := strtoHex_hexFixed 6 S (ty :: ' ' :: name) (by omega) (by unfold U64; decide)
+  unfold parseFields
+  rw [step1]
+  simp only
+  have e8 : hexFixed 8 S = hexDigit (S / 16 ^ 7 % 16) :: hexFixed 7 S := rfl
+  rw [e8, List.cons_append]
+  simp only [hexDigit_isDigit _ hd, if_true]
+  have step2' : strtoHex (hexDigit (S / 16 ^ 7 % 16) :: (hexFixed 7 S ++ ' ' :: ty :: ' ' :: name))
+      = (S, ' ' :: ty :: ' ' :: name) := step2
+  rw [step2']
+  rfl
+
+theorem parseLine_saved (A S : Nat) (ty : Char) (name : List Char) (hA : A < U64)
+    (hS : S < 0xa0000000) :
+    parseLine (hexFixed 16 A ++ ' ' :: (hexFixed 8 S ++ ' ' :: ty :: ' ' :: name))
+      = some (A, S % U32, ty, cutTab name) := by
+  rw [← parseFields_saved A S ty name hA hS]
+  have e16 : hexFixed 16 A = hexDigit (A / 16 ^ 15 % 16) :: hexFixed 15 A := rfl
+  generalize hexFixed 8 S ++ ' ' :: ty :: ' ' :: name = rest
+  rw [e16]
+  unfold parseLine
+  split
+  · rename_i heq
+    simp only [List.cons_append, List.cons.injEq] at heq
+    exact absurd heq.1 (hexDigit_facts _ (Nat.mod_lt _ (by decide))).2.2.2.2.2.1
+  · rfl
+
+theorem cutTab_of_noTab (n : List Char) (h : '\t' ∉ n) : cutTab n = n := by
+  unfold cutTab
+  induction n with
+  | nil => rfl
+  | cons c r ih =>
+    have hc : c ≠ '\t' := fun e => h (by simp [e])
+    have hr : '\t' ∉ r := fun e => h (by simp [e])
+    simp [hc, ih hr]
+
 end Uft.SymFile
